@@ -393,6 +393,7 @@ func (c *Client) sendInput(ctx context.Context, info proto.ColInfoInput, q Query
 		if err := c.encodeBlock(ctx, "", q.Input); err != nil {
 			return errors.Wrap(err, "write block")
 		}
+		verifPoint("sender:block-encoded")
 		if f == nil {
 			// No callback, single block.
 			break
@@ -401,6 +402,7 @@ func (c *Client) sendInput(ctx context.Context, info proto.ColInfoInput, q Query
 		if err := c.flush(ctx); err != nil {
 			return errors.Wrap(err, "flush")
 		}
+		verifPoint("sender:block-flushed")
 		if err := f(ctx); err != nil {
 			if errors.Is(err, io.EOF) {
 				// No more data.
@@ -430,6 +432,7 @@ End:
 	if err := c.encodeBlankBlock(ctx); err != nil {
 		return errors.Wrap(err, "write end of data")
 	}
+	verifPoint("sender:end-encoded")
 
 	return nil
 }
@@ -704,9 +707,11 @@ func (c *Client) Do(ctx context.Context, q Query) (err error) {
 		if err := c.sendQuery(ctx, q); err != nil {
 			return errors.Wrap(err, "send query")
 		}
+		verifPoint("sender:query-encoded")
 		if err := c.flush(ctx); err != nil {
 			return errors.Wrap(err, "flush")
 		}
+		verifPoint("sender:query-flushed")
 		var info proto.ColInfoInput
 		if colInfo != nil {
 			c.lg.Debug("Waiting for column info")
@@ -720,6 +725,7 @@ func (c *Client) Do(ctx context.Context, q Query) (err error) {
 		if err := c.sendInput(ctx, info, q); err != nil {
 			return errors.Wrap(err, "send input")
 		}
+		verifPoint("sender:before-final-flush")
 		if err := c.flush(ctx); err != nil {
 			return errors.Wrap(err, "flush")
 		}
@@ -744,6 +750,7 @@ func (c *Client) Do(ctx context.Context, q Query) (err error) {
 				}
 				return errors.Wrap(err, "packet")
 			}
+			verifPoint("receiver:packet-code")
 			switch code {
 			case proto.ServerCodeData, proto.ServerCodeTotals:
 				if err := c.decodeBlock(ctx, decodeOptions{
@@ -768,8 +775,10 @@ func (c *Client) Do(ctx context.Context, q Query) (err error) {
 	})
 	g.Go(func() error {
 		<-done
+		verifPoint("cancel:after-done")
 		// Handling query cancellation if needed.
 		if ctx.Err() != nil && !gotException.Load() {
+			verifPoint("cancel:before-cancel")
 			err := multierr.Append(ctx.Err(), c.cancelQuery())
 			return errors.Wrap(err, "canceled")
 		}
